@@ -8,6 +8,7 @@ mod setsched;
 mod values;
 mod chan;
 mod script;
+mod routerrole;
 
 use serde_json::json;
 
@@ -39,6 +40,7 @@ fn main() {
         "chan" => chan::run(args.get(2).map(|s| s.as_str()).unwrap_or("thread")),
         "agent" => chan::agent_main(&args[2]),
         "script" => script::run(),
+        "router" => routerrole::run(),
         _ => {
             eprintln!("usage: vharness <role> ...");
             std::process::exit(2);
